@@ -66,6 +66,14 @@ POOL = [
     ('SELECT {0} - verif_yield(a, 26) AS x, {1} AS s FROM #t0 WHERE {2} - a > 0', ['int', 'str', 'int'], ()),
     ('SELECT a, a - {0} AS x FROM #t0 WHERE a > {1}', ['int', 'int'], ()),
     ('SELECT nosuch FROM #t0', [], ('bad',)),
+    # account-related functions and tables (per-connection derived data: open/close index, account types)
+    ('SELECT account, open_date(account) AS o, close_date(account) AS c WHERE number > {0}', ['dec'], ('acct',)),
+    ('SELECT account, possign(number, account) AS p, verif_yield(number, 50) AS n', [], ('acct',)),
+    ('SELECT account, account_sortkey(account) AS k, has_account(account) AS h WHERE verif_yield(number, 51) != 0', [], ('acct',)),
+    ('SELECT account, verif_yield(open.date, 52) AS d FROM #accounts', [], ('acct',)),
+    ('SELECT account, sum(position) AS s FROM OPEN ON 2020-01-15 CLOSE ON 2020-03-01 GROUP BY account', [], ('from', 'agg')),
+    ('SELECT account, sum(position) AS s FROM OPEN ON 2020-02-01 GROUP BY account', [], ('from', 'agg')),
+    ('SELECT date, account, position FROM CLOSE ON 2020-03-01 CLEAR', [], ('from',)),
     # yield sites *after* a group has been finalised, before its aggregate values are read
     ('SELECT account, verif_yield(sum(number), 30) AS s, count(number) AS n GROUP BY account', [], ('agg', 'postfinal')),
     ('SELECT account, verif_yield(count(number), 31) AS n, sum(position) AS s, first(date) AS f, last(narration) AS l GROUP BY account',
@@ -90,7 +98,7 @@ def generate(rng, tier, run):
             ledgers.append(world.gen_ledger(rng, n_txn=rng.randint(2, 6)))
     t0 = world.gen_table(rng, 't0', nrows=rng.randint(1, 7), cols=T0_COLS, nullable=0.1)
     # swarm: weight statement families per run
-    fam = {'postfinal': rng.choice([0.5, 2, 4]), 'compile': rng.choice([0.5, 1, 3]), 'bal2': rng.choice([0.5, 2, 4]), 'bal1': rng.choice([0.5, 1, 3]), 'agg': rng.choice([0.5, 1, 2]),
+    fam = {'acct': rng.choice([0.3, 1, 3]), 'postfinal': rng.choice([0.5, 2, 4]), 'compile': rng.choice([0.5, 1, 3]), 'bal2': rng.choice([0.5, 2, 4]), 'bal1': rng.choice([0.5, 1, 3]), 'agg': rng.choice([0.5, 1, 2]),
            'subq': rng.choice([0.3, 1, 2]), 'from': rng.choice([0.3, 1]), 'fault': 0.6, 'bad': 0.2}
 
     def weight(tags):
@@ -136,6 +144,21 @@ def generate(rng, tier, run):
             if rng.random() < 0.8:
                 topology = 'shared'
                 ledgers = ledgers[:1]
+    elif rng.random() < 0.2:
+        # swarm class "FROM family": every thread runs FROM-qualified statements (OPEN/CLOSE/CLEAR in
+        # different combinations) over one shared connection, i.e. over copies of one registered table
+        cand = [i for i, s_ in enumerate(POOL) if 'from' in s_[2] and not s_[1]]
+        idxs = []
+        for i in rng.sample(cand, min(len(cand), rng.randint(2, 4))):
+            tpl, types_, tags = POOL[i]
+            pool.append({'t': tpl, 'types': [], 'tags': list(tags), 'names': []})
+            idxs.append(len(pool) - 1)
+        for c in clients:
+            for op in c['ops']:
+                op.update({'stmt': rng.choice(idxs), 'mode': 'lit', 'vals': [], 'real_parse': False})
+                op.pop('fault', None)
+        topology = 'shared'
+        ledgers = ledgers[:1]
     else:
         for c in clients:
             for op in c['ops']:
